@@ -83,6 +83,11 @@ def Matcher.sat (tab : ReTab) (m : Matcher) (ls : Labels) : Bool :=
 
 def matchAll (tab : ReTab) (ms : List Matcher) (ls : Labels) : Bool := ms.all (·.sat tab ls)
 
+/-- first occurrences, in order -/
+def dedup {α : Type} [BEq α] : List α → List α
+  | [] => []
+  | x :: xs => x :: (dedup xs).filter (fun y => !(y == x))
+
 /-- What the storage holds: a float or Prometheus' staleness marker. -/
 inductive SVal (V : Type) where
   | stale
